@@ -37,6 +37,7 @@ Definition CL_DATA : Z := 7.           (* the data is not the value of the write
 Definition CL_SHAPE : Z := 8.          (* observation of the wrong shape for the operation *)
 Definition CL_STUCK : Z := 9.          (* a call into the stack (write, verdict, timer body, cleanup) never returned:
                                           the writes it blocks cannot get their outcome *)
+Definition CL_PANIC : Z := 10.         (* a call into the stack panicked: the message handling died, the write has no outcome *)
 
 Inductive phase := PRun | PExp | PFired.
 Definition is_prun (ph : phase) : bool := match ph with PRun => true | _ => false end.
@@ -73,6 +74,7 @@ Definition obs_eqb (a b : obs) : bool :=
   | DataIs x y, DataIs x' y' => N.eqb x x' && N.eqb y y'
   | Sent x y, Sent x' y' => N.eqb x x' && N.eqb y y'
   | Stuck x, Stuck x' => N.eqb x x'
+  | Panicked x, Panicked x' => N.eqb x x'
   | _, _ => false
   end.
 
@@ -99,9 +101,13 @@ Definition has_drift (out : list obs) : bool :=
 Definition has_stuck (out : list obs) : bool :=
   existsb (fun o => match o with Stuck _ => true | _ => false end) out.
 
+Definition has_panic (out : list obs) : bool :=
+  existsb (fun o => match o with Panicked _ => true | _ => false end) out.
+
 (* observations that are wrong whatever the operation *)
 Definition flags (out : list obs) : verdict :=
-  (if has_drift out then [CL_DATA] else []) ++ (if has_stuck out then [CL_STUCK] else []).
+  (if has_drift out then [CL_DATA] else []) ++ (if has_stuck out then [CL_STUCK] else []) ++
+  (if has_panic out then [CL_PANIC] else []).
 
 Definition skipped_only (out : list obs) : verdict :=
   match out with [Skipped] => [] | _ => [CL_SHAPE] end.
